@@ -39,6 +39,12 @@ CHECKS = {
  "C05": dict(cat="exploration", tech="bounded-exhaustive enumeration: program family x renaming/reformatting/reordering catalogue at every site x {pebble, json} x {exact, full} x threshold grid x database contents (decoys) on the real index and scan paths; end-to-end sfw index/scan binary",
    text="Each body of the family is indexed through the real topology extraction and signature construction into fresh real stores, and every identifier-renaming, reformatting and reordering variant is scanned on both back ends, in both modes, at six thresholds, with and without decoys; the alert for the indexed signature must have confidence exactly 1.0. The built CLI is driven end to end on a subset.",
    note="Trusted: decoys are constructed to score below 1.0; same-package callee renaming is outside this check (stated in DESIGN).", ref="3/C05"),
+ "C09": dict(cat="exploration", tech="bounded-exhaustive enumeration of file pairs (every keep/edit/rename/remove assignment over 4-function files x added functions) through the real cli.ComputeDiff with an independent go/ast inventory; zipper internal maps inspected for every (base, edit) pair",
+   text="Every assignment of actions to the functions of several four-function files (with identical-shape twins, closures, methods, recursion) is diffed by the real code and the report is checked against an independent syntax inventory: every function in exactly one entry, name pairing, counters. For every edit pair of the program family the zipper's forward/reverse maps are checked to be a type- and kind-respecting bijection whose complement is exactly the added/removed lists.",
+   note="Trusted: go/ast inventory (function literals numbered per enclosing declaration, as the reports name them).", ref="3/C09"),
+ "C19": dict(cat="exploration", tech="the C09 file-pair enumeration with a rename oracle per shape, plus all ordered pairs of family topologies (and synthetic extremes) for the similarity laws",
+   text="For every file pair, per shape, at least as many body-identical pairings with status renamed exist as functions were purely renamed; pairings are one-to-one and never below the threshold. TopologySimilarity is checked on all pairs for symmetry, range, identity and exact 1.0 against fully renamed copies.",
+   note="Trusted: with identical twins any body-identical partner is accepted (identity of twins is unobservable).", ref="3/C19"),
 }
 NOT_YET = {}
 ALL = ["C%02d" % i for i in range(1, 21)]
